@@ -36,8 +36,9 @@ JOBS = [
          functions=[FN], allow_no_body=["tinyjambu_clean"],
          grid=[{"label": "p%d_n%d" % (p, n), "defs": ["TJV_POSN=%d" % p, "TJV_LEN=%d" % n]}
                for p in (0, 1, 5, 15) for n in (0, 1, 10, 11, 12, 15, 16, 17, 27, 33, 48)]
+              + [{"label": "p%d_n%d" % (p, n), "defs": ["TJV_POSN=%d" % p, "TJV_LEN=%d" % n]} for (p, n) in ((0, 64), (9, 100), (15, 130))]
               + [{"label": "p%d_null" % p, "defs": ["TJV_POSN=%d" % p, "TJV_LEN=0", "TJV_NULLIN"]} for p in (0, 7)],
-         unwind=50, cost=60, mem_share=0.3, timeout=90,
+         unwind=140, cost=60, mem_share=0.3, timeout=120,
          bounded="posn in {0,1,5,15} x inlen in {0,1,10,11,12,15,16,17,27,33,48}, input at every alignment 0..3, arbitrary L, R, buffered bytes and data (loops unwound)"),
     dict(COMMON, name="hash.oneshot.grid", files=["harness/h_hash.c", "stubs/hmon.c", "stubs/mem.c", HASH, CLEAN_SRC], defs=["WHICH=4", "TJV_ALIGN"],
          functions=["tinyjambu_hash"],
